@@ -141,6 +141,7 @@ std::string handle_sched_unit(const JV &req);
 std::string handle_resolve(const JV &req);
 std::string handle_realtime(const JV &req);
 std::string handle_batch(const JV &req);
+std::string handle_rr(const JV &req);
 
 inline std::uint64_t next_uid() { static std::atomic<std::uint64_t> u{0}; return ++u; }
 
